@@ -232,6 +232,11 @@ func (ex *Executor) deepCopy(st *State, v Val, t types.Type, memo map[*Obj]*Obj,
 	if depth > 12 {
 		ex.abort("copystructure.Copy: structure too deep")
 	}
+	for _, sh := range ex.shallowTypes {
+		if t != nil && types.Identical(sh, t) {
+			return v
+		}
+	}
 	switch x := v.(type) {
 	case Ptr:
 		if x.Obj == nil {
@@ -299,6 +304,11 @@ func (ex *Executor) deepCopy(st *State, v Val, t types.Type, memo map[*Obj]*Obj,
 	case IfaceV:
 		if x.T == nil {
 			return x
+		}
+		for _, sh := range ex.shallowTypes {
+			if types.Identical(sh, x.T) {
+				return x
+			}
 		}
 		return IfaceV{T: x.T, V: ex.deepCopy(st, x.V, x.T, memo, depth+1)}
 	case *ArrayV:
@@ -684,6 +694,31 @@ func registerReflect(ex *Executor) {
 			return TupleV{IfaceV{}, IfaceV{}}, cNext
 		}
 		cp := ex.deepCopy(st, iv.V, iv.T, map[*Obj]*Obj{}, 0)
+		return TupleV{IfaceV{T: iv.T, V: cp}, IfaceV{}}, cNext
+	}
+	// copystructure.Config{ShallowCopiers: ...}.Copy: values of the listed types are shared, not copied
+	I["(github.com/mitchellh/copystructure.Config).Copy"] = func(ex *Executor, st *State, cc *CallCtx, args []Val) (Val, ctl) {
+		cfg := args[0].(*StructV)
+		ct := ex.lookupType("github.com/mitchellh/copystructure", "Config").Underlying().(*types.Struct)
+		var shallow []types.Type
+		for i := 0; i < ct.NumFields(); i++ {
+			if ct.Field(i).Name() == "ShallowCopiers" {
+				if m, ok := cfg.Fields[i].(MapV); ok && m.Obj != nil {
+					for _, e := range ex.mapData(st, m).Entries {
+						if t := rtypeOf(e.K); t != nil {
+							shallow = append(shallow, t)
+						}
+					}
+				}
+			}
+		}
+		iv, ok := args[1].(IfaceV)
+		if !ok || iv.T == nil {
+			return TupleV{IfaceV{}, IfaceV{}}, cNext
+		}
+		ex.shallowTypes = shallow
+		cp := ex.deepCopy(st, iv.V, iv.T, map[*Obj]*Obj{}, 0)
+		ex.shallowTypes = nil
 		return TupleV{IfaceV{T: iv.T, V: cp}, IfaceV{}}, cNext
 	}
 	psErr := func(st *State) Val {
